@@ -60,6 +60,7 @@ class Sim:
         self.probes: Counter = Counter()
         self.faults: Counter = Counter()
         self.events: list = []
+        self.errors: list = []
         self.uuid_counter = 0
         self.id_counter = 0
         self.ids: dict = {}
